@@ -72,7 +72,7 @@ ToolAbstractionHolds ==
 
 \* tools/attest is the guest's half behind a command line: what it can write, tools/check can read (the two -outform values are -inform values
 \* of the other tool, under the same names), and no accepted command line ends anywhere but in the guest client's quote call
-AT == INSTANCE AttestTool WITH in <- "empty", inform <- "auto", outform <- "bin", out <- "stdout", pc <- "done", exit <- 1, created <- FALSE
+AT == INSTANCE AttestTool WITH in <- "empty", inform <- "auto", outform <- "bin", out <- "stdout", flags <- "plain", pc <- "done", exit <- 1, created <- FALSE
 GuestToolAbstractionHolds ==
   /\ \A f \in AT!Outforms \ {"bogus"} : /\ f \in CT!Informs \ {"bogus"}
                                        /\ CT!ExitSet([CT!Base EXCEPT !.inform = f]) = {0}         \* an honest quote in that format is accepted
